@@ -28,8 +28,10 @@ Trace == ndJsonDeserialize("trace.ndjson")
 Ev == Trace[l]
 T == 1..MaxT
 
-PushLike == {"push", "pushwait0", "pushwaitneg"}
-PopLike == {"pop", "popwait0", "popwaitneg"}
+\* (pushwait20 / popwait20: PushWait / PopWait with a 20 ms limit - timing decides only WHEN they give up; what they
+\* return must still be explained like a plain Push / Pop)
+PushLike == {"push", "pushwait0", "pushwaitneg", "pushwait20"}
+PopLike == {"pop", "popwait0", "popwaitneg", "popwait20"}
 Blocking == {"pushwaitneg", "popwaitneg"}
 
 Idle == [ph |-> "idle", op |-> "", arg |-> <<>>, res |-> <<>>, sf |-> FALSE, se |-> FALSE, ov |-> FALSE]
